@@ -14,16 +14,26 @@ import tempfile
 import warnings
 
 from harness.common import Run, coq_list
+from harness.translate import c11_run
 
 META = dict(
     technique="Coq theorems (induction over event scripts of a store-of-States + three-generator-tape model: logging observers "
               "are transparent for every schedule, a seeded run does not depend on earlier generator positions, the algorithm "
               "writes into a deep copy of the settings) + trace correspondence of recorded State/RNG operations of real fits, "
-              "decided inside Coq with the model's own `read_only` predicate + metamorphic bit-identity on the implementation",
+              "decided inside Coq with the model's own `read_only` predicate + metamorphic bit-identity on the implementation; "
+              "source-level tie of the fit's control flow: a fail-closed python-ast translator regenerates a structured program over named "
+              "events (coq/gen/GenC11.v) from BaseAlgorithm.run / TensorMcmcSaemAlgorithm._run, _iteration, _maximization_step / "
+              "_update_temperature / FitOutputManager.iteration; Coq proves that this program denotes exactly the hand-written script "
+              "fit_run for every n_iter, variable order, flag and periodicity, and each recorded fit is checked inside Coq to be an "
+              "execution of it",
     level_text="partial: the kernel of the property is proved for every observer schedule / iteration script / seed on the model, "
                "with the behaviour of one State object as an explicit interface; that interface is PROVED for the State model of C01 on "
                "every well-formed graph and the theorem is re-stated over State objects reachable from init_store with the hypothesis "
-               "gone (C11_logging_transparent_state, C11_fit_is_state_history; coq/theories/Compose, docs/Compose-api.md). Most of the assurance that the CODE has this shape comes from the per-run checks: recorded traces of real "
+               "gone (C11_logging_transparent_state, C11_fit_is_state_history; coq/theories/Compose, docs/Compose-api.md). That a fit HAS the shape of "
+               "the model's script (seeds first; per iteration the algorithm's events, then observer calls only under `output_manager is not None` "
+               "and their periodicity tests; no algorithm event or test depending on the logging configuration) is no longer only sampled: it is "
+               "proved of the program regenerated from today's source (C11_src_*), for every configuration. What the named events DO (samplers, "
+               "model methods, the output manager's print/save/plot methods being read-only) is still tied by recorded traces: most of the assurance that the CODE has this shape comes from the per-run checks: recorded traces of real "
                "fits with logging = the trace without logging + read-only operations + zero generator consumption (checked in Coq and "
                "on generator-state digests), and bit-identical parameters / individual parameters / simulated data across repetition, "
                "prior random-number consumption, prior fits and the logging grid. 'Never aborts' is a runtime check only (finding F4).",
@@ -39,7 +49,16 @@ OBLIGATIONS = [
     # composition with C01 (coq/theories/Compose/): the interface hypothesis discharged on the real State model
     "C11_state_interface_discharged", "C11_cell_is_state_object", "C11_reachable_states_consistent",
     "C11_logging_transparent_state", "C11_fit_is_state_history", "C11_state_example",
+    # source-level tie (Api/RunProg*.v): the program regenerated from the source (coq/gen/GenC11.v) denotes fit_run
+    "C11_src_program_is_fit_run", "C11_src_program_without_logging", "C11_src_logging_transparent",
+    "C11_src_observers_guarded", "C11_src_observers_erased", "C11_src_observer_frame", "C11_src_example",
+    "C11_src_logging_transparent_state",
 ]
+
+
+def translate(run: Run) -> bool:
+    """T1: regenerate coq/gen/GenC11.v (the control flow of a fit as a structured program) from $VERIF_REPO/src/leaspy."""
+    return c11_run.translate(run)
 
 SCRATCH = f"/tmp/scratch/c11-check-{os.getpid()}"
 F4_SIG = "logging:no-path:attribute-error-path_output"
@@ -144,7 +163,7 @@ class Refused(Exception):
     pass
 
 
-def make_settings(algo, seed, logs, **params):
+def make_settings(algo, seed, logs, *, call_set_logs=True, **params):
     """The two steps of BaseModel._get_algorithm, separated so that a configuration REFUSED at construction
     (LeaspyAlgoInputError) is told apart from an accepted one that aborts later."""
     from leaspy.algo import AlgorithmSettings
@@ -153,14 +172,15 @@ def make_settings(algo, seed, logs, **params):
     kw.update(logs)
     try:
         st = AlgorithmSettings(algo, seed=seed, **kw)
-        st.set_logs(**kw)
+        if call_set_logs:
+            st.set_logs(**kw)
     except LeaspyAlgoInputError as e:
         raise Refused(str(e))
     return st
 
 
 def run_algo(run: Run, algo: str, kind: str, seed: int, n_iter: int, logs: dict, with_path: bool, *, pre=None,
-             model_json=None, record=False, keep_settings=None, extra=None):
+             model_json=None, record=False, keep_settings=None, extra=None, call_set_logs=True):
     """One seeded public call in a fresh working directory.  Returns dict(digest, rng, events?, settings?).
     fit: fresh model of `kind` on the cohort;  personalize / simulate: model loaded from `model_json`."""
     from harness import synth
@@ -181,10 +201,11 @@ def run_algo(run: Run, algo: str, kind: str, seed: int, n_iter: int, logs: dict,
                 params.update(features=[c for c in df.columns if c.startswith("Y")], visit_parameters=copy.deepcopy(VISITS))
             if extra:
                 params.update(copy.deepcopy(extra))
-            settings = make_settings(algo, seed, lk, **params)
+            settings = make_settings(algo, seed, lk, call_set_logs=call_set_logs, **params)
             snap = copy.deepcopy(settings.parameters)
             rec = Recorder() if record else contextlib.nullcontext()
-            with rec:
+            sp = Spans(rec) if record else contextlib.nullcontext()
+            with rec, sp:
                 if algo == "mcmc_saem":
                     model = new_model(kind)
                     model.fit(synth.make_data(df, kind), algorithm_settings=settings)
@@ -201,7 +222,9 @@ def run_algo(run: Run, algo: str, kind: str, seed: int, n_iter: int, logs: dict,
                     dig = digest_df(ip.to_dataframe().sort_index())
             out = dict(digest=dig, rng=rng_digest(), settings_unchanged=_same(snap, settings.parameters))
             if record:
-                out["events"] = rec.events
+                out["events"] = [e for e in rec.events if not e["k"].startswith("span_")]
+                out["all_events"] = rec.events
+                out["spans"] = sp.config
                 out["model"] = model
             return out
     finally:
@@ -224,6 +247,189 @@ def _canon(x):
     if isinstance(x, pd.DataFrame):
         return ("df", digest_df(x))
     return x
+
+
+
+# ----------------------------------------------------------------------------- named-event spans (tie of the regenerated program)
+
+A_CODE = {n: i for i, n in enumerate(
+    ["ASeedPy", "ASeedNp", "ASeedTorch", "ADeviceEnter", "ADeviceExit", "AInitData", "AInitIndiv", "AInitSamplers", "AInitAnnealing",
+     "AOrder", "AShuffle", "ASample", "ASuffStats", "AMStep", "ATemperature", "AFitMetrics", "AFinClone", "AFinPopMode", "AFinReplace"])}
+O_CODE = {"OPrintAlgo": 100, "OPrintModel": 101, "OPrintTime": 102, "OSave": 103, "OPlotPatients": 104, "OPlotConvergence": 105}
+LOOP_NAMES = {"AShuffle", "ASample", "ASuffStats", "AMStep", "ATemperature"}
+MODEL_SPANS = {"put_data_variables": "AInitData", "put_individual_parameters": "AInitIndiv",
+               "compute_sufficient_statistics": "ASuffStats", "update_parameters": "AMStep"}
+ALGO_SPANS = {"_initialize_samplers": "AInitSamplers", "_initialize_annealing": "AInitAnnealing", "_update_temperature": "ATemperature",
+              "_get_fit_metrics": "AFitMetrics"}
+OM_SPANS = {"print_algo_statistics": "OPrintAlgo", "print_model_statistics": "OPrintModel", "print_time": "OPrintTime",
+            "save_model_parameters_convergence": "OSave", "save_plot_patient_reconstructions": "OPlotPatients",
+            "save_plot_convergence_model_parameters": "OPlotConvergence"}
+
+
+class Spans:
+    """Markers `span_enter` / `span_exit` (in the event list of a Recorder) around the calls that are the NAMED events of
+    Api/RunProg.v.  Wrap, never replace: `BaseAlgorithm.run` is wrapped at class level; inside it the model / algorithm / sampler /
+    output-manager OBJECTS of this very run get instance-level wrappers that call the original bound method; everything is removed
+    in a `finally`.  The configuration the Coq side unfolds the program with is read from the algorithm object (`self.config`)."""
+
+    def __init__(self, rec):
+        self.rec = rec
+        self.config = None
+        self._undo = []
+
+    def _wrap_obj(self, obj, meth, name, algo, var=None):
+        orig = getattr(obj, meth)
+        rec = self.rec
+
+        def wrapper(*a, **kw):
+            rec._emit(k="span_enter", name=name, it=getattr(algo, "current_iteration", None), var=var)
+            try:
+                return orig(*a, **kw)
+            finally:
+                rec._emit(k="span_exit", name=name, it=getattr(algo, "current_iteration", None), var=var)
+
+        had = meth in vars(obj)
+        old = vars(obj).get(meth)
+        setattr(obj, meth, wrapper)
+        self._undo.append((obj, meth, had, old))
+
+    def _undo_objs(self):
+        while self._undo:
+            obj, meth, had, old = self._undo.pop()
+            try:
+                if had:
+                    setattr(obj, meth, old)
+                else:
+                    delattr(obj, meth)
+            except Exception:
+                pass
+
+    def __enter__(self):
+        from leaspy.algo.base import BaseAlgorithm
+        from leaspy.variables.state import State
+        self._orig_run = BaseAlgorithm.__dict__["run"]
+        self._orig_ppl = State.__dict__["put_population_latent_variables"]
+        spans, rec, orig_run, orig_ppl = self, self.rec, self._orig_run, self._orig_ppl
+
+        def run(algo, model, *a, **kw):
+            if spans.config is not None or type(algo).__name__ != "TensorMcmcSaemAlgorithm":
+                return orig_run(algo, model, *a, **kw)
+            for meth, name in MODEL_SPANS.items():
+                spans._wrap_obj(model, meth, name, algo)
+            for meth, name in ALGO_SPANS.items():
+                spans._wrap_obj(algo, meth, name, algo)
+            init_samplers = algo._initialize_samplers     # the span wrapper just installed
+
+            def init_then_wrap(*a2, **kw2):
+                out = init_samplers(*a2, **kw2)
+                for vname, smp in (algo.samplers or {}).items():
+                    spans._wrap_obj(smp, "sample", "ASample", algo, var=vname)
+                return out
+            algo._initialize_samplers = init_then_wrap
+            om = algo.output_manager
+            if om is not None:
+                for meth, name in OM_SPANS.items():
+                    spans._wrap_obj(om, meth, name, algo)
+            rec._emit(k="span_enter", name="run", it=0, var=None)
+            try:
+                return orig_run(algo, model, *a, **kw)
+            finally:
+                rec._emit(k="span_exit", name="run", it=0, var=None)
+                spans.config = dict(
+                    n_iter=int(algo.algo_parameters["n_iter"]),
+                    aflags=[algo.seed is not None, bool(algo.algo_parameters["progress_bar"]), bool(algo.random_order_variables)],
+                    lflags=[om is not None, hasattr(algo, "current_iteration"), (om is None or om.path_output is None)],
+                    pers=[None if om is None else getattr(om, f"periodicity_{p}") for p in ("print", "save", "plot", "plot_patients")],
+                    variables=sorted(algo.samplers or {}))
+                spans._undo_objs()
+
+        def ppl(state, *a, **kw):
+            rec._emit(k="span_enter", name="AFinPopMode", it=None, var=None)
+            try:
+                return orig_ppl(state, *a, **kw)
+            finally:
+                rec._emit(k="span_exit", name="AFinPopMode", it=None, var=None)
+
+        BaseAlgorithm.run = run
+        State.put_population_latent_variables = ppl
+        return self
+
+    def __exit__(self, *exc):
+        from leaspy.algo.base import BaseAlgorithm
+        from leaspy.variables.state import State
+        BaseAlgorithm.run = self._orig_run
+        State.put_population_latent_variables = self._orig_ppl
+        self._undo_objs()
+        return False
+
+
+def program_items(events, variables):
+    """Recorded events -> (keys of the named events at top level of the run, operations outside every named event).
+    Top level = directly in `run` (algorithm side) or directly in `FitOutputManager.iteration` (observer side); whatever happens
+    inside a named event belongs to it."""
+    from harness.recorder import SEED_FUNCS
+    vix = {n: i for i, n in enumerate(variables)}
+    seeds = {"py": "ASeedPy", "np": "ASeedNp", "torch": "ASeedTorch"}
+    items, strays = [], []
+    in_run, depth, in_obs = False, 0, False
+    for e in events:
+        k = e["k"]
+        if k in ("span_enter", "span_exit") and e["name"] == "run":
+            in_run = (k == "span_enter")
+            continue
+        if not in_run:
+            continue
+        if k == "span_enter":
+            if depth == 0:
+                name = e["name"]
+                code = A_CODE[name] if name in A_CODE else O_CODE[name]
+                it = e["it"] if (name in LOOP_NAMES or name in O_CODE) else 0
+                items.append([code, int(it or 0), vix.get(e["var"], 0) if name == "ASample" else 0, name])
+            depth += 1
+            continue
+        if k == "span_exit":
+            depth -= 1
+            continue
+        if depth > 0:
+            continue
+        if k == "obs_enter":
+            in_obs = True
+            continue
+        if k == "obs_exit":
+            in_obs = False
+            continue
+        if in_obs:
+            continue        # operations of `iteration` itself: part of the observer segment, judged by check_logging
+        if k == "rng" and e["fn"] in SEED_FUNCS:
+            items.append([A_CODE[seeds[SEED_FUNCS[e["fn"]]]], 0, 0, "seed"])
+        elif k == "rng" and e["fn"] == "random.shuffle":
+            items.append([A_CODE["AShuffle"], None, 0, "AShuffle"])
+        elif k == "clone":
+            items.append([A_CODE["AFinClone"], 0, 0, "AFinClone"])
+        elif k == "replace":
+            items.append([A_CODE["AFinReplace"], 0, 0, "AFinReplace"])
+        else:
+            strays.append({kk: e.get(kk) for kk in ("k", "fn", "var") if e.get(kk) is not None})
+    # a shuffle belongs to the iteration of the named loop event that follows it
+    nxt = 0
+    for it in reversed(items):
+        if it[3] in LOOP_NAMES and it[1] is not None:
+            nxt = it[1]
+        if it[1] is None:
+            it[1] = nxt
+    return [tuple(it[:3]) for it in items], strays
+
+
+def coq_opt(x):
+    return "None" if x is None else f"(Some {int(x)})"
+
+
+def program_case(cfg, keys):
+    n, nv = cfg["n_iter"], len(cfg["variables"])
+    orders = [[k for (c, i, k) in keys if c == A_CODE["ASample"] and i == it] for it in range(1, n + 1)]
+    b = lambda l: coq_list(["true" if x else "false" for x in l])
+    return (f"({n}, {nv}, {coq_list([coq_list([str(k) for k in o]) for o in orders])}, {b(cfg['aflags'])}, {b(cfg['lflags'])}, "
+            f"{coq_list([coq_opt(p) for p in cfg['pers']])}, {coq_trace(keys)})")
 
 
 # ----------------------------------------------------------------------------- (a) trace correspondence
@@ -304,6 +510,8 @@ def coq_trace(t):
     return coq_list([f"({a},{b},{c})" for a, b, c in t])
 
 
+PROG_TIE_OK = True
+PROG_HEADER = "From Coq Require Import List. Import ListNotations.\nFrom Leaspy Require Import Api.ApiModel Api.ApiTie Api.RunProg Api.RunProgTie.\n"
 TIE_HEADER = "From Coq Require Import List. Import ListNotations.\nFrom Leaspy Require Import Api.ApiModel Api.ApiInst Api.ApiTie.\n"
 
 
@@ -323,13 +531,46 @@ def trace_correspondence(run: Run, thorough: bool):
     n_iter, seed = 4, run.seed % 997
     cases, meta = [], []
     off_cache = {}
+    prog_cases, prog_meta = [], []
+
+    def program_tie(rec_out, desc):
+        """the recorded run must be an execution of the program regenerated from the source (Api/RunProgTie.v check_run)"""
+        cfg = rec_out.get("spans")
+        if cfg is None:
+            run.broken("trace:program:no-run", f"BaseAlgorithm.run of a TensorMcmcSaemAlgorithm was never entered ({desc})", kind="broken-correspondence")
+            return
+        keys, strays = program_items(rec_out["all_events"], cfg["variables"])
+        if strays:
+            run.broken("trace:program:operation-outside-named-event",
+                       f"{len(strays)} State / generator operations of the run happen outside every named event of the program "
+                       f"(statements the translator takes for silent are not): {strays[:6]} ({desc})", kind="broken-correspondence")
+        nobs = sum(1 for c, _, _ in keys if c >= 100)
+        run.case(("program-trace", desc["kind"], tuple(sorted((desc.get("logs") or {}).items())), tuple(cfg["aflags"]), tuple(cfg["lflags"])),
+                 nontrivial=len(keys) > 10)
+        run.count("program_trace_named_events", desc["kind"], len(keys))
+        run.count("program_trace_observer_calls", desc["kind"], nobs)
+        prog_cases.append(program_case(cfg, keys))
+        prog_meta.append(dict(desc, config={k: cfg[k] for k in ("n_iter", "aflags", "lflags", "pers", "variables")}, keys=keys))
+
+    # configurations recorded for the program tie only: no OutputsSettings at all (output_manager is None); progress bar on and
+    # the variables sampled in sorted order
+    for kind, kw in [("logistic", dict(call_set_logs=False)), ("logistic", dict(extra=dict(progress_bar=True, random_order_variables=False)))]:
+        desc = dict(kind=kind, n_iter=n_iter, seed=seed, logs={}, variant=sorted(kw))
+        try:
+            program_tie(run_algo(run, "mcmc_saem", kind, seed, n_iter, {}, False, record=True, **kw), desc)
+        except Refused:
+            run.count("trace", "refused")
+        except Exception as e:
+            run.fail(f"fit:abort:{type(e).__name__}", f"fit ({sorted(kw)}) raised {type(e).__name__}: {e}", desc)
     for kind, logs in configs:
         desc = dict(kind=kind, n_iter=n_iter, seed=seed, logs=logs)
         try:
             if kind not in off_cache:
                 off_cache[kind] = run_algo(run, "mcmc_saem", kind, seed, n_iter, {}, False, record=True)
+                program_tie(off_cache[kind], dict(desc, logs={}))
             off = off_cache[kind]
             on = run_algo(run, "mcmc_saem", kind, seed, n_iter, logs, True, record=True)
+            program_tie(on, desc)
         except Refused:
             run.count("trace", "refused")
             continue
@@ -370,6 +611,17 @@ def trace_correspondence(run: Run, thorough: bool):
                      {k: m[k] for k in ("kind", "n_iter", "seed", "logs")}, observed=why[1])
         run.sample(dict(kind="trace", config=meta[0]["logs"], model=meta[0]["kind"], observer_calls=len(meta[0]["segs"]),
                         first_observer_ops=meta[0]["segs"][0][:12], algorithm_ops=len(meta[0]["t_off"])))
+    if prog_cases and PROG_TIE_OK:
+        bad = run.vm_bad_indices("program", PROG_HEADER, "run_case", prog_cases, "check_run")
+        for i in bad or []:
+            m = prog_meta[i]
+            run.broken("trace:program:not-an-execution",
+                       "the named events recorded in a real fit are not the unfolding of the program regenerated from the source "
+                       f"in the configuration read from the algorithm object: {json.dumps({k: m[k] for k in ('kind', 'logs', 'config')}, default=str)}; "
+                       f"recorded keys (code, iteration, variable): {m['keys'][:80]}", kind="broken-correspondence")
+        with_obs = next((m for m in prog_meta if any(c >= 100 for c, _, _ in m["keys"])), prog_meta[0])
+        run.sample(dict(kind="program-trace", model=with_obs["kind"], logs=with_obs.get("logs"), config=with_obs["config"],
+                        named_events=len(with_obs["keys"]), first_keys=with_obs["keys"][:14]))
 
 
 KINDS_TXT = {0: "get", 1: "set", 2: "unset", 3: "clone", 4: "save", 5: "revert", 6: "rng-draw", 7: "rng-seed", 8: "replace", 9: "isset"}
@@ -764,24 +1016,44 @@ def build_tie(run: Run):
     ok, out = make(["theories/Api/ApiTie.vo"], jobs=8)
     if not ok:
         run.broken("build:ApiTie", out[-1500:])
-    return ok
+    ok2, out = make(["theories/Api/RunProgTie.vo"], jobs=8)
+    if not ok2:
+        import re
+        m = re.search(r'File "([^"]+)", line (\d+)[^\n]*\n(?:.*\n){0,8}', out)
+        run.broken("build:RunProgTie",
+                   "Api/RunProgTie.v does not build.  Its first lemmas (`gen_well_shaped`, `gen_guards_ok`) are decided by vm_compute on "
+                   "coq/gen/GenC11.v, the control flow regenerated from the source: a failure there means the fit no longer has the shape of "
+                   "`fit_run` (an algorithm event or a test of the logging configuration where only the other side may stand, an observer call "
+                   "outside `if self.output_manager is not None` or outside its periodicity test).\n" + (m.group(0) if m else out[-1500:]))
+    return ok2
 
 
 def main(run: Run):
     from harness.common import use_impl
+    try:
+        translate(run)
+    except Exception as e:  # a crashing translator is a broken translation, not a crash of the check
+        import traceback
+        run.broken("translate:GenC11", f"translator crashed: {type(e).__name__}: {e}\n{traceback.format_exc()[-800:]}", kind="broken-translation")
     run.prove("C11", OBLIGATIONS)
-    build_tie(run)
+    global PROG_TIE_OK
+    PROG_TIE_OK = build_tie(run)
     use_impl()
     thorough = run.tier == "thorough"
     os.makedirs(SCRATCH, exist_ok=True)
     run.rule = ("(a) real fits recorded with and without logging, compared inside Coq with the model's read_only predicate; non-trivial = "
-                "the logged run performs at least one observer operation. (b,c) seeded public calls (mcmc_saem fit; scipy_minimize, "
+                "the logged run performs at least one observer operation; the same recordings (+ one without OutputsSettings, one with the "
+                "progress bar on and sorted sampling order) carry markers around the calls that are the named events of the program "
+                "regenerated from the source, and Coq checks that the marker sequence is the unfolding of that program in the configuration "
+                "read from the algorithm object (non-trivial = more than 10 named events). (b,c) seeded public calls (mcmc_saem fit; scipy_minimize, "
                 "mean_posterior, mode_posterior, simulate on a saved model) repeated / after generator consumption / after another fit / "
                 "over the grid print,save,plot,plot_patient in {None,1,3,n_iter} x path in {None,tmp} (quick: directed core + seeded sample; "
                 "thorough: full grid for logistic, 40 sampled combinations for the other kinds); non-trivial = the configuration was accepted "
                 "at construction. Compared bit-for-bit (sha1 of tensors / dataframes, final digests of the three generator states).")
-    run.explanation = ("Unbounded statements are proved on the event-script model; the per-run checks establish that real runs have the "
-                       "shape the model assumes (logging = read-only observer scripts without generator calls; three seeds first) and "
+    run.explanation = ("Unbounded statements are proved on the event-script model; that a fit's control flow IS that script is proved of the "
+                       "structured program regenerated from the source on every run (translator fail-closed; a change of shape breaks "
+                       "`gen_well_shaped` / `gen_guards_ok`); the per-run checks establish that real runs execute that program and that the "
+                       "named events have the nature the model assumes (logging = read-only observer scripts without generator calls) and "
                        "search the implementation for a seed / history / logging combination that changes a result or aborts.")
     run.assumptions += [
         "behaviour of one State object = the ten facts of `state_interface` (to be discharged by C01; proved for the memo table of ApiInst.v)",
@@ -789,7 +1061,8 @@ def main(run: Run):
         "python random, numpy global RandomState and torch default generator are the only entropy sources (digest-checked around observers)",
     ]
     run.trusted += ["harness/recorder.py (wrappers around State methods and RNG entry points, generator-state digests)",
-                    "Coq evaluation (vm_compute) of Api/ApiTie.v checkers on encoded traces"]
+                    "Coq evaluation (vm_compute) of Api/ApiTie.v checkers on encoded traces",
+                    "span markers of harness/props/c11.py (instance-level wrappers naming the calls that are the events of Api/RunProg.v)"]
     try:
         trace_correspondence(run, thorough)
         settings_copy(run)
